@@ -309,6 +309,38 @@ fn main() {
         }
         out.stat(&format!("adapter-{}", ["O", "L", "R", "RL", "RRO", "S", "W", "SR", "OS"][i % 9]));
     }
+    // `Out::append` itself, with a receiver that already holds commands (the crate's adapters always append into an
+    // empty `Out`, a user-written wrapper need not): the result is the receiver's commands followed by the appended
+    // ones, in order, and the argument is left empty.  Direct law, judged here.
+    for _ in 0..(if th { 4000 } else { 400 }) {
+        let mut rr = r.fork();
+        let p = GenParams { density: 55, ..Default::default() };
+        let mk = |rr: &mut Rng| -> Vec<TCmd> { (0..rr.below(5)).map(|_| gen_cmd(rr, &p, 3)).collect() };
+        let (a, b) = (mk(&mut rr), mk(&mut rr));
+        let fill = |cs: &[TCmd]| -> AOut<TableActor<TMsg>> {
+            let mut o = AOut::<TableActor<TMsg>>::new();
+            for c in cs {
+                match c {
+                    TCmd::Send(d, m) => o.send(Id::from(*d), TMsg::from_code(*m as u64)),
+                    TCmd::SetTimer(t) => o.set_timer(TTimer(*t), stateright::actor::model_timeout()),
+                    TCmd::CancelTimer(t) => o.cancel_timer(TTimer(*t)),
+                    TCmd::ChooseRandom(k, cs) => o.choose_random(key_name(*k), cs.iter().map(|c| TRandom(*c)).collect()),
+                }
+            }
+            o
+        };
+        let mut oa = fill(&a);
+        let mut ob = fill(&b);
+        let mut all = a.clone();
+        all.extend(b.iter().cloned());
+        let expect = format!("{:?}", fill(&all));
+        oa.append(&mut ob);
+        if format!("{:?}", oa) != expect || !ob.is_empty() {
+            out.v("out-append", &format!("Out::append: receiver {} + argument {} gave {:?} (argument left with {} commands)", cmds_sx(&a), cmds_sx(&b), oa, ob.len()));
+        }
+        out.stat("out-append-laws");
+        if !a.is_empty() && !b.is_empty() { out.stat("out-append-both-nonempty"); }
+    }
     for i in 0..n_sys {
         let mut rr = r.fork();
         let p = GenParams { actors: (1, 3), density: 35, max_crashes: (0, 1), ..Default::default() };
